@@ -1,4 +1,4 @@
-import BeyondVerif.Lemmas.HeapSep
+import BeyondVerif.Lemmas.HeapSet
 /-!
 # C15 — state vectors have value semantics and change atomically
 
@@ -84,11 +84,13 @@ theorem setFrame_unknown_atomic (h : Heap) (a : Nat) (name : String) (hn : resol
 
 example : resolveFrame "NoSuchFrame" = none := by decide +kernel
 
-/-- a failing transformation (Hill frame involved): the only cell that may be rewritten is the coordinate
-buffer, and its new content denotes the same physical state (`phys` erases form conversions: the code goes
-form → cartesian → form); form, frame, metadata, covariance cells are not written at all -/
-theorem setFrameBasic_error_atomic (h h' : Heap) (a : Nat) (fr : Fr) (e : Err) (s : SV)
-    (hs : getSV h a = some s) (hr : setFrameBasic h a fr = (h', .error e)) :
+/-- a failing transformation — the Hill frame involved, or (`env = some e`) the environment making `Frame.transform`
+raise: a centre that cannot be reached, a date without Earth-orientation data under the 'error' policy — from whatever
+form the state is held in: the only cell that may be rewritten is the coordinate buffer, and its new content denotes
+the same physical state (`phys` erases form conversions: the code goes form → cartesian → form); form, frame,
+metadata, covariance cells are not written at all -/
+theorem setFrameBasic_error_atomic (h h' : Heap) (a : Nat) (fr : Fr) (env : Env) (e : Err) (s : SV)
+    (hs : getSV h a = some s) (hr : setFrameBasic h a fr env = (h', .error e)) :
     h' = h ∨ ∃ v', h' = write h s.buf (.buf v') ∧ phys v' = phys s.val := by
   unfold setFrameBasic at hr
   rw [hs] at hr
@@ -96,7 +98,9 @@ theorem setFrameBasic_error_atomic (h h' : Heap) (a : Nat) (fr : Fr) (e : Err) (
   split at hr
   · simp at hr
   · split at hr
-    · simp at hr
+    · split at hr
+      · right; simp at hr; exact ⟨_, hr.1.symm, by simp [phys_mkConv]⟩
+      · simp at hr
     · right; simp at hr; exact ⟨_, hr.1.symm, by simp [phys_mkConv]⟩
     · right; simp at hr; exact ⟨_, hr.1.symm, by simp [phys_mkConv]⟩
     · left; simp at hr; exact hr.1.symm
@@ -107,8 +111,8 @@ example : setFrameBasic [.buf (.init 0), .dict [("form", .form "keplerian"), ("f
   decide +kernel
 
 /-- a failing covariance frame change writes nothing -/
-theorem covSetFrame_error_atomic (h h' : Heap) (c : Nat) (fr : Fr) (e : Err)
-    (hr : covSetFrame h c fr = (h', .error e)) : h' = h := by
+theorem covSetFrame_error_atomic (h h' : Heap) (c : Nat) (fr : Fr) (env : Env) (e : Err)
+    (hr : covSetFrame h c fr env = (h', .error e)) : h' = h := by
   unfold covSetFrame at hr
   split at hr
   · split at hr
@@ -116,22 +120,23 @@ theorem covSetFrame_error_atomic (h h' : Heap) (c : Nat) (fr : Fr) (e : Err)
     · split at hr
       · simp at hr; exact hr.1.symm
       · split at hr
-        · simp at hr; exact hr.1.symm
         · simp at hr
+        · simp at hr; exact hr.1.symm
   · simp at hr; exact hr.1.symm
 
 /-- where a failing `sv.frame = name` can come from: an unknown name (nothing touched), the state-vector
 part (see `setFrameBasic_error_atomic`), or — the state vector having been changed successfully — the
 covariance that was to follow it (which is then left exactly as it was, `covSetFrame_error_atomic`) -/
-theorem setFrame_error_cases (h h' : Heap) (a : Nat) (name : String) (e : Err) (s : SV)
-    (hs : getSV h a = some s) (hr : setFrame h a name = (h', .error e)) :
+theorem setFrame_error_cases (h h' : Heap) (a : Nat) (name : String) (env : Env) (e : Err) (s : SV)
+    (hs : getSV h a = some s) (hr : setFrame h a name env = (h', .error e)) :
     (h' = h) ∨
-    (∃ fr, resolveFrame name = some fr ∧ setFrameBasic h a fr = (h', .error e)) ∨
-    (∃ fr c, resolveFrame name = some fr ∧ setFrameBasic h a fr = (h', .ok ()) ∧ lookup "cov" s.items = some (.addr c)) := by
+    (∃ fr, resolveFrame name = some fr ∧ setFrameBasic h a fr env = (h', .error e)) ∨
+    (∃ fr c, resolveFrame name = some fr ∧ setFrameBasic h a fr env = (h', .ok ()) ∧ lookup "cov" s.items = some (.addr c)) := by
   unfold setFrame at hr
   split at hr
   · left; simp at hr; exact hr.1.symm
   · rename_i fr hfr
+    unfold setFrameTo at hr
     rw [hs] at hr
     simp only at hr
     split at hr
@@ -146,7 +151,7 @@ theorem setFrame_error_cases (h h' : Heap) (a : Nat) (name : String) (e : Err) (
         refine ⟨fr, c, hfr, ?_, hc⟩
         split at hr
         · split at hr
-          · have := covSetFrame_error_atomic _ _ _ _ _ hr
+          · have := covSetFrame_error_atomic _ _ _ _ _ _ hr
             rw [hb, this]
           · simp at hr
         · simp at hr; rw [hb, hr.1]
@@ -194,82 +199,6 @@ theorem copyForm_receiver_unchanged (h : Heap) (a : Nat) (name : String) : Pres 
   · rename_i h1 e he; rw [he] at p; exact p
   · rename_i h1 n he
     have q := setForm_on_copy_pres h h1 a n name he
-    split
-    · rename_i h2 e he2; rw [he2] at q; exact q
-    · rename_i h2 he2; rw [he2] at q; exact q
-
-theorem lookup_mem_items (k : String) (r : Ref) (items : Items) (hl : lookup k items = some r) : (k, r) ∈ items := by
-  induction items with
-  | nil => simp [lookup] at hl
-  | cons kv rest ih =>
-    obtain ⟨k', v⟩ := kv
-    by_cases hk : k' = k
-    · subst hk; simp [lookup] at hl; subst hl; exact List.mem_cons_self
-    · simp [lookup, hk] at hl; exact List.mem_cons_of_mem _ (ih hl)
-
-/- History: listed as an open obligation until /repo commit d229088 (the covariance setter no longer re-frames its
-   private state copy) made the covariance part a single write to the (new) covariance cell. -/
-/-- `copy(frame=…)`: the frame change runs on the new object; it writes its (new) buffer and dict and, when the
-covariance follows, the (new) covariance cell — the receiver and its covariance are unchanged whether the
-change succeeds or fails -/
-theorem copyFrame_receiver_unchanged (h : Heap) (a : Nat) (name : String) : Pres h (copyFrame h a name).1 := by
-  unfold copyFrame
-  have p := copy_receiver_unchanged h a
-  split
-  · rename_i h1 e he; rw [he] at p; exact p
-  · rename_i h1 n he
-    rw [he] at p
-    have q : Pres h (setFrame h1 n name).1 := by
-      unfold setFrame
-      split
-      · exact p
-      · rename_i fr hfr
-        split
-        · exact p
-        · rename_i s' hs'
-          obtain ⟨hb, hd, _, _, s, items', h0, hs, hc, _, hi, _⟩ := copySVWith_getSV (copyRef_ok _) h h1 a n s' he hs'
-          have pb : Pres h (setFrameBasic h1 n fr).1 := by
-            unfold setFrameBasic
-            rw [hs']
-            simp only
-            split
-            · exact p
-            · split
-              · exact (p.wr hb _).wr hd _
-              · exact p.wr hb _
-              · exact p.wr hb _
-              · exact p
-          split
-          · rename_i h2 e hb2; rw [hb2] at pb; exact pb
-          · rename_i h2 hb2
-            rw [hb2] at pb
-            split
-            · rename_i c hcov
-              have hfresh := copyItems_fresh (copyRef_ok _) h s.items items' h0 hc "cov" c (by rw [← hi]; exact lookup_mem_items _ _ _ hcov)
-              split
-              · rename_i cv cfr orb ofr hcell
-                split
-                · -- the covariance follows: one write, at `c`
-                  unfold covSetFrame
-                  rw [hcell]
-                  simp only
-                  split
-                  · exact pb
-                  · split
-                    · exact pb
-                    · split
-                      · exact pb
-                      · rcases hfresh with hnew | ⟨t, ht⟩
-                        · exact pb.wr hnew _
-                        · -- an old address would hold a maneuver object, not a covariance
-                          exfalso
-                          have hlt : c < h.length := (List.getElem?_eq_some_iff.mp ht).1
-                          have := pb.2 c hlt
-                          rw [hcell, ht] at this
-                          simp at this
-                · exact pb
-              · exact pb
-            · exact pb
     split
     · rename_i h2 e he2; rw [he2] at q; exact q
     · rename_i h2 he2; rw [he2] at q; exact q
@@ -402,6 +331,81 @@ theorem copy_shares_only_maneuver_objects (h h1 : Heap) (a n x : Nat) (wf : WfM 
   rcases reach_good sep hn hx1 with hnew | hman
   · omega
   · exact hman
+
+/-- `copy(form=…)` at full depth: whether the conversion succeeds or fails, the heap it leaves is separated from the old
+one — the receiver and everything reachable from it is intact, and every address stored in a cell created on the way
+is new or a maneuver object (the setter runs on the new object and stores nothing that was not already there) -/
+theorem copyForm_separate (h : Heap) (a : Nat) (name : String) (wf : WfM h) : Sep h (copyForm h a name).1 := by
+  unfold copyForm
+  split
+  · rename_i h1 e he
+    have ha : a < h.length ∨ ¬ a < h.length := Nat.lt_or_ge a h.length |>.imp id Nat.not_lt.mpr
+    rcases ha with ha | ha
+    · have hs := copySVWith_sep wf (copyRef_sep wf copyFuel) h (Sep.refl h) a ha
+      unfold copySV at he; rw [he] at hs; exact hs
+    · unfold copySV copySVWith at he
+      have : getSV h a = none := by
+        unfold getSV
+        have : h[a]? = none := by simp; omega
+        rw [this]
+      rw [this] at he
+      simp at he; rw [← he.1]; exact Sep.refl h
+  · rename_i h1 n he
+    obtain ⟨sep, hn⟩ := copy_separate h h1 a n wf he
+    have q : Sep h (setForm h1 n name).1 := by
+      unfold setForm
+      split
+      · exact sep
+      · unfold setFormTo
+        split
+        · exact sep
+        · rename_i s' hs'
+          obtain ⟨hb, hd, _⟩ := copySVWith_getSV (copyRef_ok _) h h1 a n s' he hs'
+          have := setFormTo_sep sep n s' hs' hb hd ‹String›
+          unfold setFormTo at this; rw [hs'] at this; exact this
+    split
+    · rename_i h2 e he2; rw [he2] at q; exact q
+    · rename_i h2 he2; rw [he2] at q; exact q
+
+/-- `copy(frame=…)` at full depth, success or failure (incl. a transformation that raises half-way and a covariance that
+follows the state): the frame change writes the new buffer and dict, the new covariance object and ITS OWN new buffer —
+the receiver, its covariance and the covariance's buffer are intact -/
+theorem copyFrame_separate (h : Heap) (a : Nat) (name : String) (wf : WfM h) : Sep h (copyFrame h a name).1 := by
+  unfold copyFrame
+  split
+  · rename_i h1 e he
+    have ha : a < h.length ∨ ¬ a < h.length := Nat.lt_or_ge a h.length |>.imp id Nat.not_lt.mpr
+    rcases ha with ha | ha
+    · have hs := copySVWith_sep wf (copyRef_sep wf copyFuel) h (Sep.refl h) a ha
+      unfold copySV at he; rw [he] at hs; exact hs
+    · unfold copySV copySVWith at he
+      have : getSV h a = none := by
+        unfold getSV
+        have : h[a]? = none := by simp; omega
+        rw [this]
+      rw [this] at he
+      simp at he; rw [← he.1]; exact Sep.refl h
+  · rename_i h1 n he
+    obtain ⟨sep, hn⟩ := copy_separate h h1 a n wf he
+    have q : Sep h (setFrame h1 n name).1 := by
+      unfold setFrame
+      split
+      · exact sep
+      · rename_i fr hfr
+        unfold setFrameTo
+        split
+        · exact sep
+        · rename_i s' hs'
+          obtain ⟨hb, hd, _⟩ := copySVWith_getSV (copyRef_ok _) h h1 a n s' he hs'
+          have := setFrameTo_sep sep n s' hs' hb hd fr noEnv
+          unfold setFrameTo at this; rw [hs'] at this; exact this
+    split
+    · rename_i h2 e he2; rw [he2] at q; exact q
+    · rename_i h2 he2; rw [he2] at q; exact q
+
+/-- `copy(frame=…)`: the receiver and its covariance are unchanged whether the change succeeds or fails -/
+theorem copyFrame_receiver_unchanged (h : Heap) (a : Nat) (name : String) (wf : WfM h) : Pres h (copyFrame h a name).1 :=
+  (copyFrame_separate h a name wf).pres
 
 /-- the hypotheses of `copy_separate` are satisfiable: the example heap is well-formed and its copy succeeds -/
 theorem example_heap_wf : WfM C15Ex.h0 := by
@@ -566,6 +570,96 @@ theorem getSV_form (h : Heap) (a : Nat) (s : SV) (hg : getSV h a = some s) :
   obtain ⟨hc, hb, hd⟩ := getSV_cells h a s hg
   exact (getSV_of_cells h a s.buf s.data s.orbit s.val s.items s hc hb hd hg).2.2.2
 
+/-- rewriting the coordinate buffer of a state vector changes what is read back from it in the values only -/
+theorem getSV_write_buf (h : Heap) (a : Nat) (s : SV) (v' : Val) (hs : getSV h a = some s) (hne : s.buf ≠ s.data) :
+    getSV (write h s.buf (.buf v')) a = some { s with val := v' } := by
+  obtain ⟨hc, hb, hd⟩ := getSV_cells h a s hs
+  obtain ⟨hf, hfr⟩ := getSV_form h a s hs
+  have hblt : s.buf < h.length := (List.getElem?_eq_some_iff.mp hb).1
+  have hab : a ≠ s.buf := by intro he; rw [he, hb] at hc; simp at hc
+  unfold getSV
+  rw [write_other _ _ _ _ hab, hc]
+  simp only [write_same _ _ _ hblt, write_other _ _ _ _ hne.symm, hd, hf, hfr]
+
+/-- the label part of `setFrameBasic_error_atomic`, for every form the state may be held in: after a failing
+transformation the object reads back with the form, frame and `_data` entries it had, and its values are either
+untouched or the round trip form → cartesian → form of what it held — never cartesian values under a non-cartesian
+form label (clause "a form or frame change that fails leaves the object in its previous, consistent form/frame/values") -/
+theorem setFrameBasic_error_keeps_labels (h h' : Heap) (a : Nat) (fr : Fr) (env : Env) (e : Err) (s : SV)
+    (hs : getSV h a = some s) (hne : s.buf ≠ s.data) (hr : setFrameBasic h a fr env = (h', .error e)) :
+    ∃ s', getSV h' a = some s' ∧ s'.form = s.form ∧ s'.frame = s.frame ∧ s'.items = s.items ∧
+      (s'.val = s.val ∨ s'.val = mkConv "cartesian" s.form (mkConv s.form "cartesian" s.val)) := by
+  have key := fun v' => getSV_write_buf h a s v' hs hne
+  unfold setFrameBasic at hr
+  rw [hs] at hr
+  simp only at hr
+  split at hr
+  · simp at hr
+  · split at hr
+    · split at hr
+      · simp at hr; rw [← hr.1]; exact ⟨_, key _, rfl, rfl, rfl, Or.inr rfl⟩
+      · simp at hr
+    · simp at hr; rw [← hr.1]; exact ⟨_, key _, rfl, rfl, rfl, Or.inr rfl⟩
+    · simp at hr; rw [← hr.1]; exact ⟨_, key _, rfl, rfl, rfl, Or.inr rfl⟩
+    · simp at hr; rw [← hr.1]; exact ⟨s, hs, rfl, rfl, rfl, Or.inl rfl⟩
+
+/- FULL statement (clause "a form or frame change that fails leaves the object in its previous, consistent form/frame/values"):
+     setFrame h a name env = (h', .error e) → getSV h a = some s → ∃ s', getSV h' a = some s' ∧ s'.form = s.form ∧ s'.frame = s.frame ∧ phys s'.val = phys s.val
+   It is FALSE of the code: when the state-vector part succeeds and the covariance that has to follow raises, the state has
+   moved (counter-witness `C15W.frame_change_fails_after_state_moved`, open finding C15-frame-change-not-atomic-with-cov,
+   proposed_fixes/C15-frame-setter-atomic.diff). What holds: -/
+/-- a failing `sv.frame = name` on a state whose covariance does not have to follow (none, or expressed in another frame
+than the state): form, frame and `_data` are those before the call and the values are untouched or the round trip
+form → cartesian → form of what was held — for every environment and every form -/
+theorem setFrame_error_atomic_partial (h h' : Heap) (a : Nat) (name : String) (env : Env) (e : Err) (s : SV)
+    (hs : getSV h a = some s) (hne : s.buf ≠ s.data)
+    (hcov : ∀ c, lookup "cov" s.items = some (.addr c) → ∃ b cfr orb ofr, h[c]? = some (.cov b cfr orb ofr) ∧ cfr ≠ s.frame)
+    (hcb : ∀ c, lookup "cov" s.items = some (.addr c) → c ≠ s.buf ∧ c ≠ s.data)
+    (hr : setFrame h a name env = (h', .error e)) :
+    ∃ s', getSV h' a = some s' ∧ s'.form = s.form ∧ s'.frame = s.frame ∧ s'.items = s.items ∧ phys s'.val = phys s.val := by
+  have conv : ∀ s' : SV, (s'.val = s.val ∨ s'.val = mkConv "cartesian" s.form (mkConv s.form "cartesian" s.val)) → phys s'.val = phys s.val := by
+    intro s' hv
+    rcases hv with hv | hv
+    · rw [hv]
+    · rw [hv, phys_mkConv, phys_mkConv]
+  rcases setFrame_error_cases h h' a name env e s hs hr with h1 | ⟨fr, _, hb⟩ | ⟨fr, c, hfr, hb, hc⟩
+  · subst h1; exact ⟨s, hs, rfl, rfl, rfl, rfl⟩
+  · obtain ⟨s', hs', hf, hfr, hi, hv⟩ := setFrameBasic_error_keeps_labels h h' a fr env e s hs hne hb
+    exact ⟨s', hs', hf, hfr, hi, conv s' hv⟩
+  · -- the state-vector part succeeded: then the covariance had to follow, which the hypothesis excludes
+    exfalso
+    unfold setFrame at hr
+    rw [hfr] at hr
+    unfold setFrameTo at hr
+    rw [hs] at hr
+    simp only [hb, hc] at hr
+    -- the heap after the state-vector part still holds the covariance cell at `c`
+    obtain ⟨hcell, hbuf, hdat⟩ := getSV_cells h a s hs
+    have hbl : s.buf < h.length := (List.getElem?_eq_some_iff.mp hbuf).1
+    have hcc : h'[c]? = h[c]? := by
+      unfold setFrameBasic at hb
+      rw [hs] at hb
+      simp only at hb
+      split at hb
+      · simp at hb; rw [← hb]
+      · split at hb
+        · split at hb
+          · simp at hb
+          · simp at hb
+            rw [← hb, write_other _ _ _ _ (hcb c hc).2, write_other _ _ _ _ (hcb c hc).1]
+        · simp at hb
+        · simp at hb
+        · simp at hb
+    obtain ⟨b, cfr, orb, ofr, hcv, hne'⟩ := hcov c hc
+    rw [hcc, hcv] at hr
+    simp [hne'] at hr
+
+example : ∃ s, getSV C15Ex.h0 6 = some s ∧ s.buf ≠ s.data := ⟨_, rfl, by decide⟩
+/-- the hypotheses of `setFrame_error_atomic_partial` are satisfiable (a state without covariance) and its conclusion is not vacuous
+(the assignment does fail) -/
+example : (∃ s, getSV C15Ex.h0 6 = some s ∧ lookup "cov" s.items = none) ∧ (setFrame C15Ex.h0 6 "Hill").2 = .error .value := by
+  refine ⟨⟨_, rfl, by decide⟩, by decide +kernel⟩
+
 /-- what `as_orbit` / `as_statevector` build: coordinates of the receiver, `_data` of a copy of the receiver with the
 `propagator` entry set / removed -/
 theorem asOrbit_result (h h1 : Heap) (a p n : Nat) (s sn : SV) (hs : getSV h a = some s)
@@ -661,5 +755,258 @@ theorem as_orbit_as_statevector_id (h h1 h2 : Heap) (a p n m : Nat) (s s2 : SV) 
       · simp at this
     have hl2 := hkey "frame" _ (by decide) (by intro x; simp) hl
     have := hf2.2; unfold frameOf at this; rw [hl2] at this; simp at this; exact this.symm
+
+/-! ## histories: any sequence of in-place operations on the copy -/
+
+/-- the in-place operations of the public API (the ones the correspondence run drives on real objects), with their arguments -/
+inductive Mut
+  | setForm (name : String)
+  | setFrame (name : String) (env : Env)
+  | setAttr (name : String) (x : Nat)
+  | setIdx (i x : Nat)
+  | covFrame (name : String)
+  | readMan
+  | addMan (t : Nat)
+  | metaAppend (key : String) (x : Nat)
+  | metaSetItem (key : String) (x : Nat)
+  | nestedAppend (x : Nat)
+  | arrSet
+
+/-- the heap an operation leaves behind, whether it succeeds or raises -/
+def Mut.run (h : Heap) (n : Nat) : Mut → Heap
+  | .setForm name => (Heap.setForm h n name).1
+  | .setFrame name env => (Heap.setFrame h n name env).1
+  | .setAttr name x => (Heap.setAttr h n name x).1
+  | .setIdx i x => (Heap.setIdx h n i x).1
+  | .covFrame name => (Heap.covFrame h n name).1
+  | .readMan => (Heap.readMan h n).1
+  | .addMan t => (Heap.addMan h n t).1
+  | .metaAppend key x => (Heap.metaAppend h n key x).1
+  | .metaSetItem key x => (Heap.metaSetItem h n key x).1
+  | .nestedAppend x => (Heap.nestedAppend h n x).1
+  | .arrSet => (Heap.arrSet h n).1
+
+/-- one in-place operation — successful or failing, on coordinates, form, frame (incl. a transformation the environment
+makes fail), metadata key, metadata container (empty or not, nested or not), maneuver list (incl. the one the getter
+creates on a mere read), covariance frame — applied to an object that is a new cell of a heap separated from `h0`
+writes only new cells and stores only `Good` addresses: the heap stays separated from `h0` -/
+theorem mut_sep {h0 h : Heap} (sep : Sep h0 h) {n : Nat} (hn : h0.length ≤ n) (m : Mut) : Sep h0 (m.run h n) := by
+  cases m with
+  | setForm name => exact setForm_sep' sep hn name
+  | setFrame name env => exact setFrame_sep' sep hn name env
+  | setAttr name x => exact setAttr_sep sep hn name x
+  | setIdx i x => exact setIdx_sep sep hn i x
+  | covFrame name => exact covFrame_sep sep hn name
+  | readMan => exact readMan_sep sep hn
+  | addMan t => exact addMan_sep sep hn t
+  | metaAppend key x => exact metaAppend_sep sep hn key x
+  | metaSetItem key x => exact metaSetItem_sep sep hn key x
+  | nestedAppend x => exact nestedAppend_sep sep hn x
+  | arrSet => exact arrSet_sep sep hn
+
+/-- a history: operations applied one after the other, each to some object that did not exist in `h0` -/
+def runMuts (h : Heap) : List (Nat × Mut) → Heap
+  | [] => h
+  | (n, m) :: rest => runMuts (m.run h n) rest
+
+theorem muts_sep {h0 : Heap} (ms : List (Nat × Mut)) (hnew : ∀ p ∈ ms, h0.length ≤ p.1) :
+    ∀ h, Sep h0 h → Sep h0 (runMuts h ms) := by
+  induction ms with
+  | nil => intro h sep; exact sep
+  | cons p rest ih =>
+    intro h sep
+    obtain ⟨n, m⟩ := p
+    exact ih (fun q hq => hnew q (List.mem_cons_of_mem _ hq)) _ (mut_sep sep (hnew (n, m) List.mem_cons_self) m)
+
+/-- clause "changing coordinates, metadata, maneuvers or covariance of one never shows in the other", over histories:
+after `c = sv.copy()`, ANY sequence of in-place operations on the copy (of any length, each succeeding or raising)
+leaves every cell that existed before the copy — the receiver, its buffer, `_data`, containers at any depth, maneuver
+list, covariance and the covariance's buffer — bit-identical; and the heap stays separated, so the statement
+keeps holding for whatever is done next -/
+theorem copy_then_mutations_invisible (h h1 : Heap) (a n : Nat) (wf : WfM h) (hr : copySV h a = (h1, .ok n))
+    (ms : List Mut) : Pres h (runMuts h1 (ms.map (fun m => (n, m)))) ∧ Sep h (runMuts h1 (ms.map (fun m => (n, m)))) := by
+  obtain ⟨sep, hn⟩ := copy_separate h h1 a n wf hr
+  have := muts_sep (h0 := h) (ms.map (fun m => (n, m))) (by
+    intro p hp
+    obtain ⟨m, _, rfl⟩ := List.mem_map.mp hp
+    exact hn) h1 sep
+  exact ⟨this.pres, this⟩
+
+example : (copySV C15Ex.h0 6).2 = .ok 12 ∧
+    (runMuts (copySV C15Ex.h0 6).1 [(12, .addMan 5), (12, .setFrame "Hill" noEnv), (12, .metaAppend "nested" 1), (12, .setForm "keplerian")]).take 7 = C15Ex.h0 := by
+  decide +kernel
+
+/-- the same for the objects `as_statevector` returns -/
+theorem asSV_then_mutations_invisible (h h1 : Heap) (a n : Nat) (wf : WfM h) (hr : asSV h a = (h1, .ok n))
+    (ms : List Mut) : Pres h (runMuts h1 (ms.map (fun m => (n, m)))) := by
+  obtain ⟨sep, hn⟩ := asSV_separate h h1 a n wf hr
+  exact (muts_sep (h0 := h) (ms.map (fun m => (n, m))) (by
+    intro p hp
+    obtain ⟨m, _, rfl⟩ := List.mem_map.mp hp
+    exact hn) h1 sep).pres
+
+/-- … and for an unpickled object (which shares nothing at all) -/
+theorem pickle_then_mutations_invisible (h h1 : Heap) (a n : Nat) (hr : pickle h a = (h1, .ok n))
+    (ms : List Mut) : Pres h (runMuts h1 (ms.map (fun m => (n, m)))) := by
+  obtain ⟨hn, hcl⟩ := pickle_separate h h1 a n hr
+  have hp := pickle_receiver_unchanged h a
+  rw [hr] at hp
+  have sep : Sep h h1 := ⟨hp, fun a' c ha hc x hx => Good.new (hcl a' c ha hc x hx)⟩
+  exact (muts_sep (h0 := h) (ms.map (fun m => (n, m))) (by
+    intro p hp
+    obtain ⟨m, _, rfl⟩ := List.mem_map.mp hp
+    exact hn) h1 sep).pres
+
+/-! ## constructors given an existing object, getters that create -/
+
+theorem dateTok_noaddr (items : Items) (x : Nat) : dateTok items ≠ .addr x := by
+  unfold dateTok
+  split <;> simp
+
+theorem ctor_items_refs (items : Items) (f : String) (fr : Fr) (p : Option Nat) (x : Nat)
+    (hx : x ∈ refsOf (.dict ([("date", dateTok items), ("form", .form f), ("frame", .frame fr)] ++
+      propItems p))) : p = some x := by
+  obtain ⟨k, hk⟩ := mem_refs_dict.mp hx
+  cases p with
+  | none =>
+    simp [propItems] at hk
+    exact absurd hk.2.symm (dateTok_noaddr _ _)
+  | some p' =>
+    simp [propItems] at hk
+    rcases hk with ⟨_, hk⟩ | ⟨_, hk⟩
+    · exact absurd hk.symm (dateTok_noaddr _ _)
+    · rw [hk]
+
+/-- `StateVector(src, …)` / `Orbit(src, …, p)` (the constructor given an existing object as coordinates): nothing is
+written; the object, its buffer and its dict are new cells and the only old address stored is the propagator
+handed in — the coordinates live in a new buffer -/
+theorem ctor_separate (h h1 : Heap) (a n : Nat) (p : Option Nat) (hr : ctor h a p = (h1, .ok n)) :
+    Pres h h1 ∧ h.length ≤ n ∧ ClosedP (fun x => h.length ≤ x ∨ p = some x) h h1 := by
+  unfold ctor at hr
+  split at hr
+  · simp at hr
+  · rename_i s hs
+    have q0 : ClosedP (fun x => h.length ≤ x ∨ p = some x) h h := ClosedP.refl _ h
+    have q1 := q0.alloc (.buf s.val) (by simp [refsOf])
+    have q2 := q1.alloc (.dict ([("date", dateTok s.items), ("form", .form s.form), ("frame", .frame s.frame)] ++
+      propItems p)) (fun x hx => Or.inr (ctor_items_refs _ _ _ _ x hx))
+    have q3 := q2.alloc (.sv p.isSome h.length (h.length + 1)) (by
+      intro x hx
+      simp [refsOf] at hx
+      rcases hx with rfl | rfl
+      · left; exact Nat.le_refl _
+      · left; omega)
+    have p3 := (((Pres.refl h).alloc (.buf s.val)).alloc (.dict ([("date", dateTok s.items), ("form", .form s.form), ("frame", .frame s.frame)] ++
+      propItems p))).alloc (.sv p.isSome h.length (h.length + 1))
+    simp [alloc] at hr q3 p3
+    obtain ⟨hh, hn⟩ := hr
+    subst hh
+    exact ⟨p3, by omega, q3⟩
+
+example : (ctor C15Ex.h0 6 none).2 = .ok 9 ∧ (getSV (ctor C15Ex.h0 6 none).1 9).map (fun s => (s.val, s.form, s.buf)) = some (.init 0, "cartesian", 7) := by
+  decide +kernel
+
+/-- `sv.cov = Cov(sv, values, frame)` — values given as a list / ndarray (`setCov`) or as an existing covariance (`covFrom`):
+the only pre-existing cell that is rewritten is the `_data` dict of `sv` itself -/
+theorem attachCov_frame (h : Heap) (a : Nat) (cv : Val) (cfr : Fr) (s : SV) (hs : getSV h a = some s) :
+    ∀ x, x < h.length → x ≠ s.data → (attachCov h a cv cfr).1[x]? = h[x]? := by
+  intro x hx hne
+  unfold attachCov
+  rw [hs]
+  simp only
+  have p := copy_receiver_unchanged h a
+  split
+  · rename_i h1 e he; rw [he] at p; exact p.2 x hx
+  · rename_i h1 o he
+    rw [he] at p
+    split
+    · exact p.2 x hx
+    · rename_i s' hs'
+      obtain ⟨hb, hd, _⟩ := copySVWith_getSV (copyRef_ok _) h h1 a o s' he hs'
+      have p2 := (((p.wr hb (.buf (mkConv s'.form "cartesian" s'.val))).wr hd
+        (.dict (insert "cov" .none (insert "form" (.form "cartesian") s'.items)))).alloc (.buf cv))
+      have p3 := p2.alloc (.cov (alloc (write (write h1 s'.buf (.buf (mkConv s'.form "cartesian" s'.val))) s'.data
+        (.dict (insert "cov" .none (insert "form" (.form "cartesian") s'.items)))) (.buf cv)).2 cfr o s.frame)
+      simp only [alloc] at p3 ⊢
+      rw [write_other _ _ _ _ hne]
+      exact p3.2 x hx
+
+/-- what `Cov(sv, values, frame)` builds: the covariance object stored under `cov` is a new cell, labelled `cfr`, and
+its 6x6 buffer is a NEW cell holding the values given — whatever they were taken from (`np.array(values)` copies) -/
+theorem attachCov_result (h h' : Heap) (a : Nat) (cv : Val) (cfr : Fr) (s : SV) (hs : getSV h a = some s)
+    (hr : attachCov h a cv cfr = (h', .ok ())) :
+    ∃ c nb o, h'[s.data]? = some (.dict (insert "cov" (.addr c) s.items)) ∧ h'[c]? = some (.cov nb cfr o s.frame) ∧
+      h'[nb]? = some (.buf cv) ∧ h.length ≤ c ∧ h.length ≤ nb ∧ h.length ≤ o := by
+  obtain ⟨_, _, hdcell⟩ := getSV_cells h a s hs
+  have hdlt : s.data < h.length := (List.getElem?_eq_some_iff.mp hdcell).1
+  unfold attachCov at hr
+  rw [hs] at hr
+  simp only at hr
+  have p := copy_receiver_unchanged h a
+  split at hr
+  · simp at hr
+  · rename_i h1 o he
+    rw [he] at p
+    split at hr
+    · simp at hr
+    · rename_i s' hs'
+      obtain ⟨hb, hd, ho, _⟩ := copySVWith_getSV (copyRef_ok _) h h1 a o s' he hs'
+      have hlen : h.length ≤ h1.length := p.1
+      simp only [alloc] at hr
+      have hh := (Prod.mk.inj hr).1
+      have hsd : s.data < h1.length := by omega
+      refine ⟨h1.length + 1, h1.length, o, ?_, ?_, ?_, by omega, by omega, ho⟩
+      · rw [← hh, write_same _ _ _ (by simp [write]; omega)]
+        simp [write]
+      · rw [← hh, write_other _ _ _ _ (by omega)]
+        simp [write]
+      · rw [← hh, write_other _ _ _ _ (by omega)]
+        simp [write]
+
+/-- clause "shares no mutable data", for the constructor branch `values is a Cov` (`b.cov = Cov(b, a.cov, None)`): the
+covariance of the source, its buffer and every other pre-existing cell except the `_data` dict of `b` are untouched -/
+theorem covFrom_frame (h : Heap) (a src : Nat) (s : SV) (hs : getSV h a = some s) :
+    ∀ x, x < h.length → x ≠ s.data → (covFrom h a src).1[x]? = h[x]? := by
+  intro x hx hne
+  unfold covFrom
+  rw [hs]
+  split
+  · rename_i s0 sb hs0 hsb
+    split
+    · split
+      · split
+        · exact attachCov_frame h a _ _ s hs x hx hne
+        · rfl
+      · rfl
+    · rfl
+  · rfl
+
+/-- the `maneuvers` getter on a state that never had a maneuver list: the (empty, mutable) list it creates is a NEW cell
+— no two objects are handed the same one —, the only pre-existing cell rewritten is the object's own `_data` dict -/
+theorem getMans_creates_new (h h' : Heap) (a l : Nat) (s : SV) (hs : getSV h a = some s)
+    (hnone : lookup "maneuvers" s.items = none) (hr : getMans h a = (h', .ok l)) :
+    l = h.length ∧ h'[l]? = some (.list []) ∧ h'[s.data]? = some (.dict (insert "maneuvers" (.addr l) s.items)) ∧
+    ∀ x, x < h.length → x ≠ s.data → h'[x]? = h[x]? := by
+  obtain ⟨_, _, hdcell⟩ := getSV_cells h a s hs
+  have hdlt : s.data < h.length := (List.getElem?_eq_some_iff.mp hdcell).1
+  unfold getMans at hr
+  rw [hs] at hr
+  simp only [hnone, alloc] at hr
+  have hh := (Prod.mk.inj hr).1
+  have hl := Except.ok.inj (Prod.mk.inj hr).2
+  subst hl
+  refine ⟨rfl, ?_, ?_, ?_⟩
+  · rw [← hh, write_other _ _ _ _ (by omega)]; simp
+  · rw [← hh, write_same _ _ _ (by simp; omega)]
+  · intro x hx hne
+    rw [← hh, write_other _ _ _ _ hne]
+    simp [List.getElem?_append_left hx]
+
+/-- when the list exists the getter returns it and writes nothing -/
+theorem getMans_existing (h : Heap) (a l : Nat) (s : SV) (hs : getSV h a = some s)
+    (hl : lookup "maneuvers" s.items = some (.addr l)) : getMans h a = (h, .ok l) := by
+  unfold getMans
+  rw [hs]
+  simp only [hl]
 
 end BeyondVerif.C15
